@@ -379,7 +379,12 @@ def j_qsvd_trunc(name, fn, pre, kw, out):
                 {"shape": [m, n], "R": Rk, "oversample": P, "repo_test": True})
     else:
         o = Out("C05", "classical_qsvd", degenerate(A) or "simple-spectrum", {"shape": [m, n], "R": Rk, "repo_test": True})
-    o.eqint("Shapes", [list(U.shape[:2]), list(V.shape[:2])], [[m, Rk], [n, Rk]])
+    # the number of triples returned is the truncation rank the caller asked for
+    try:
+        Rreq = int(np.asarray(b.get("R", pre[1] if len(pre) > 1 else Rk)))
+    except Exception:
+        Rreq = Rk
+    o.eqint("Shapes", [list(U.shape[:2]), list(V.shape[:2]), Rk], [[m, Rk], [n, Rk], min(Rreq, Rk) if Rreq > min(m, n) else Rreq])
     if [list(U.shape[:2]), list(V.shape[:2])] != [[m, Rk], [n, Rk]]:
         return [o]
     sv, top, scale = _svd_common(o, A, U, s, V)
